@@ -14,6 +14,7 @@ import (
 	"github.com/openfga/openfga/internal/concurrency"
 	"github.com/openfga/openfga/internal/containers/mpsc"
 	"github.com/openfga/openfga/internal/listobjects/pipeline/internal/worker"
+	"github.com/openfga/openfga/internal/verifhook"
 )
 
 type (
@@ -340,6 +341,7 @@ func (b *Builder) Build(
 		if current.edge != nil {
 			if subscriber, ok := workers[current.edge.GetFrom().GetUniqueLabel()]; ok {
 				subscriber.Listen(w.Subscribe(current.edge, config.BufferCapacity))
+				verifhook.Event("pl.edge", current.edge.GetFrom().GetUniqueLabel(), label, worker.IsCyclical(current.edge))
 				totalListeners++
 			}
 		}
